@@ -356,7 +356,11 @@ def judge(prep, inputs_json: dict, timeout: float, excl=()) -> dict:
                     if t_ in ("int", "bool", "str", "float"):
                         emit_st["fields"].append(f"_{owner.__name__.lstrip('_')}{f_}" if f_.startswith("__") and not f_.endswith("__") else f_)
     # ghost event log: classes whose sidecar declares the ghost field `emitted` record the names passed to emit()
-    for obj in inputs.values():
+    seen_ids_ = set()
+    for obj in list(inputs.values()) + list(REFS.values()):      # also objects nested in the arguments (channels of a table)
+        if id(obj) in seen_ids_:
+            continue
+        seen_ids_.add(id(obj))
         cs = next((c_ for q, c_ in reg.classes.items() if q.split(":")[-1] == type(obj).__name__), None)
         if cs is not None and "emitted" in cs.ghost_fields:
             if not isinstance(getattr(obj, "emitted", None), list):
@@ -511,7 +515,11 @@ def judge(prep, inputs_json: dict, timeout: float, excl=()) -> dict:
         out = call(**args)
         if inspect.iscoroutine(out):
             import asyncio
-            out = asyncio.new_event_loop().run_until_complete(out)
+            loop_ = asyncio.new_event_loop()
+            try:
+                out = loop_.run_until_complete(out)
+            finally:
+                loop_.close()
         if inspect.isgenerator(out):
             out = list(out)
         result = out
